@@ -232,7 +232,9 @@ fn run_doc(root: &Path, k: usize, ext: &str, text: &str, probes: &[Val], files: 
         // every fourth document is reached through a symbolic link whose target's name says nothing (or something
         // else) about the format: the format is that of the path the caller names
         static TURN: std::sync::atomic::AtomicUsize = std::sync::atomic::AtomicUsize::new(0);
-        match TURN.fetch_add(1, std::sync::atomic::Ordering::SeqCst) % 8 {
+        // (counted over the documents that are LOADED FROM THE PATH, tag "a": load_config_file)
+        let turn = if tag == "a" { TURN.fetch_add(1, std::sync::atomic::Ordering::SeqCst) % 8 } else { 0 };
+        match turn {
             3 => {
                 let real = root.join(format!("blob{}{}", k, tag));
                 std::fs::write(&real, &t).unwrap();
